@@ -121,10 +121,11 @@ def main():
     old_meta = os.path.join(dest, "meta.json")
     if os.path.exists(old_meta):
         try:
-            first = json.load(open(old_meta)).get("first_pass", first)
+            first = json.load(open(old_meta)).get("first_pass")     # a seed kept before first passes were recorded has none
         except Exception:
             pass
-    meta["first_pass"] = first
+    if first is not None:
+        meta["first_pass"] = first
     json.dump(meta, open(os.path.join(dest, "meta.json"), "w"), indent=1)
     print("kept as", dest)
     return 0
